@@ -365,10 +365,12 @@ def collect_cc(prop, tier):
         extra_cov = {"constant_folding": {"tlc_trace": st2, "recorder": summ2, "dumps_checked": ndumps,
                                           "what": "ConstFold analysis (modify hook adds the literal) on recorded rewriting runs of language A: datum = least "
                                                   "fixpoint of make over the dumped e-nodes, class with a value contains the literal, value = model value"}}
-    if prop in ("C08", "C12"):
+    if prop in ("C08", "C12", "C14"):
         import egop
         # C12 runs the full configuration of the tier; C08 (WellFormed) always the small one
-        extra_cov = dict(extra_cov, operational_model=egop.run_tier(tier if prop == "C12" else "quick", tables, prop))
+        # C12 runs the full configuration of the tier; C08 (WellFormed) always the small one; C14 the universes in which data move
+        extra_cov = dict(extra_cov, operational_model=egop.run_tier(tier if prop == "C12" else "quick", tables, prop,
+                                                                    only=["U1", "U4", "U6", "U8"] if prop == "C14" and tier == "quick" else None))
     others = {}
     for f in findings:
         if f["prop"] != prop:
